@@ -21,9 +21,10 @@ import (
 
 func init() {
 	register("C02", propDef{
-		header:     "From KV Require Import Corr.C02.\nOpen Scope string_scope.\n",
-		caseType:   "case02",
-		mismatchFn: "mismatches02",
+		header: "From KV Require Import Corr.PIPE.\nFrom KV Require Labels.\nFrom KV Require Gen.LegacyOrder.\n" +
+			"Open Scope string_scope.\n",
+		caseType:   "casePIPE",
+		mismatchFn: "mismatchesPIPE",
 		run:        runC02,
 		replay:     replayC02,
 	})
@@ -497,6 +498,13 @@ func runC02(r *Run, rng *Rng, tier string) error {
 			r.Violation(OracleViolation{Law: v.Law, Class: "C02/" + v.Law, Detail: v.Detail, Replay: c})
 		}
 	}
+	// whole-build model correspondence: the integrated pipeline model (Res/Pipeline.v) vs krusty.Run,
+	// whole documents at the typed-JSON level (the tie of C02P/C11P/C19P/C01P/C07P/C06P theorems to /repo)
+	rule := r.Meta.Rule
+	if err := runPIPE(r, rng.Fork(), tier); err != nil {
+		return err
+	}
+	r.Meta.Rule = rule + " || pipeline model: " + r.Meta.Rule
 	return nil
 }
 
@@ -508,8 +516,9 @@ func replayC02(path string) (bool, string, error) {
 	var rp struct {
 		Case case02 `json:"case"`
 	}
-	if err := json.Unmarshal(data, &rp); err != nil {
-		return false, "", err
+	if err := json.Unmarshal(data, &rp); err != nil || len(rp.Case.Files) == 0 {
+		// a case of the pipeline-model correspondence
+		return replayPIPE(path)
 	}
 	cls, viol, _ := check02(rp.Case)
 	detail := fmt.Sprintf("class=%s violations=%v", cls, viol)
